@@ -296,6 +296,55 @@ func runC07(c *core.Ctx) {
 		check(fmt.Sprintf("rechost/two/%d", k), "recursive-host-then-shared", starlark.Tuple{h, h2, after, h, h2, after})
 	}
 
+	// 3c. streams: one Encoder encodes several values one after the other, one Decoder reads them back - memo ids run on
+	// across the values of a stream on both sides
+	{
+		sg := &sval.Gen{R: c.Rand("streams"), Host: true}
+		ns := c.N(300, 20000)
+		for i := 0; i < ns; i++ {
+			id := fmt.Sprintf("stream/%d", i)
+			if !c.Want(id) {
+				continue
+			}
+			var pool []starlark.Value
+			n := 2 + sg.R.IntN(4)
+			vals := make([]starlark.Value, n)
+			for k := range vals {
+				vals[k] = sg.Value(3, &pool) // the pool carries over: later values may share containers with earlier ones
+				if k > 0 && sg.R.IntN(3) == 0 {
+					in := starlark.NewList([]starlark.Value{starlark.MakeInt(k)})
+					vals[k] = starlark.Tuple{in, vals[k], in}
+				}
+			}
+			var buf bytes.Buffer
+			enc := pickle.NewEncoder(&buf, sval.HostPicklerT{})
+			var err error
+			for _, v := range vals {
+				if err = enc.Encode(v); err != nil {
+					break
+				}
+			}
+			c.Eval(id)
+			c.Count("shape:stream", 1)
+			if err != nil {
+				c.Violation(id, "", "roundtrip-error", map[string]any{"error": "encode: " + err.Error()})
+				continue
+			}
+			dec := pickle.NewDecoder(&buf, pickle.UnpicklerFunc(sval.HostUnpickler))
+			for k, v := range vals {
+				out, err := dec.Decode()
+				if err != nil || out == nil {
+					c.Violation(id, "", "roundtrip-error", map[string]any{"error": fmt.Sprint("decode of value ", k, " of the stream: ", err), "value": sval.Describe(v)})
+					break
+				}
+				if err := sval.Iso(v, out); err != nil {
+					c.Violation(id, "", "not-isomorphic", map[string]any{"stream_position": k, "values_in_stream": n, "difference": err.Error(), "value": sval.Describe(v), "decoded": sval.Describe(out)})
+					break
+				}
+			}
+		}
+	}
+
 	// 4. random nested values.
 	n := c.N(20000, 2000000)
 	core.Parallel(n, c.N(1, 14), func(i int) {
